@@ -39,8 +39,10 @@ namespace igris
             m_mutex.lock();
             bWasSignalled = m_bFlag;
             m_bFlag = true;
-            m_mutex.unlock();
+            // notify while the mutex is held: a waiter cannot return from wait()
+            // (and destroy this event) before notify_all() has finished
             m_condition.notify_all();
+            m_mutex.unlock();
             return bWasSignalled == false;
         }
 
